@@ -9,7 +9,7 @@ class Unbound(Exception):
 
 
 class State:
-    __slots__ = ('ex', 'loc', 'heap', 'alloc', 'ghost', 'pc', 'next_oid', 'origin', 'stale', 'trace')
+    __slots__ = ('ex', 'loc', 'heap', 'alloc', 'ghost', 'pc', 'next_oid', 'origin', 'stale', 'trace', 'known')
 
     def __init__(self, ex):
         self.ex = ex
@@ -22,6 +22,7 @@ class State:
         self.origin = {}      # local name -> alias origin (see exec.assign_path)
         self.stale = set()
         self.trace = []       # human-readable path description (branch decisions) for reports
+        self.known = set()    # ast ids of atoms assumed on this path (cheap pruning of repeated forks)
 
     def copy(self):
         s = State(self.ex)
@@ -34,6 +35,7 @@ class State:
         s.origin = dict(self.origin)
         s.stale = set(self.stale)
         s.trace = list(self.trace)
+        s.known = set(self.known)
         return s
 
     def assume(self, *conds):
@@ -41,7 +43,27 @@ class State:
             if c is None or z3.is_true(c):
                 continue
             self.pc.append(c)
+            self.known.add(c.get_id())
+            if z3.is_and(c):
+                for x in c.children():
+                    self.known.add(x.get_id())
         return self
+
+    def fork(self, ok, note):
+        """-> (state where ok holds | None, state where it fails | None); prunes syntactically decided forks"""
+        if ok.get_id() in self.known:
+            return self, None
+        oks = z3.simplify(ok)
+        if z3.is_true(oks):
+            return self, None
+        if z3.is_false(oks):
+            return None, self.copy().note(note)
+        if oks.get_id() in self.known:
+            return self, None
+        bad = self.copy().assume(z3.Not(ok)).note(note)
+        good = self.copy().assume(ok)
+        good.known.add(oks.get_id())
+        return good, bad
 
     def note(self, s):
         self.trace.append(s)
